@@ -306,6 +306,8 @@ _reg_step('O1.step_default_euclid', 'one inner-loop step of the real trust_regio
           'default objective-value', ('quick', 'thorough'), GOALS_DEFAULT, incremental=False, precond_ip=False, precond_kind='identity')
 _reg_step('O1.step_default_precond', 'same with the preconditioned inner product and an arbitrary positive preconditioner, all four step types, check_stability on',
           'default objective-value, preconditioned inner product', ('thorough',), GOALS_DEFAULT, incremental=False, precond_ip=True, precond_kind='spd', nkinds=4, check_stability=True)
+_reg_step('O1.step_precond_2kinds', 'preconditioned inner product with an arbitrary positive preconditioner (two step types, no stability check): quick-tier rung of O1.step_default_precond',
+          'default objective-value, preconditioned inner product', ('quick',), GOALS_DEFAULT, incremental=False, precond_ip=True, precond_kind='spd', nkinds=2)
 _reg_step('O2.step_incremental', 'incremental-objective mode: flag, callback and radius clauses (descent is not claimed by the property in this mode)',
           'gradient-based incremental-objective', ('thorough',), [g for g in GOALS_DEFAULT if not g.startswith('descent')], incremental=True, precond_ip=False, precond_kind='identity')
 
@@ -495,3 +497,38 @@ DESIGNED_NOT_REGISTERED = [
     ('O4.convex_quadratic_converges[k>=3]', 'start farther than 8 initial radii from the minimiser: the unrolled real loop (boundary steps, radius growth) '
      'produces path conditions whose infeasibility z3 cannot decide within 0.2-1.5 s per branch, so the path tree does not close (no result after 10 min for k=3; k=2 still open after 20 min)'),
 ]
+
+
+# ------------------------------------------------------------------------------------------ O5: the real Objective follows objective.p
+def make_objective_follows_p_harness():
+    """The operators the solver uses (value, gradient, hessian_vec of the REAL optimism.Objective.Objective, jitted closures
+    evaluated through the jaxpr interpreter) must be those of the parameters currently installed in objective.p — also after
+    the parameters were replaced (the driver replaces them before every solve)."""
+    def fn(ex):
+        from . import c19
+        O = c19._objmod()
+        a, B0, B2, c, x, pold, pnew = c19._draw_ws_inputs(ex, 'cubic')
+        app = (a, B0, B2, c)
+        p_old = O.Params(pold[0], pold[1], pold[2], app, ex.real('t_old'), None)
+        p_new = O.Params(pnew[0], pnew[1], pnew[2], app, ex.real('t_new'), None)
+        xe, pe = c19._examples('cubic')
+        obj = c19.make_hybrid(c19.energy_cubic, xe, pe, p_old)
+        v = ex.vec('v', c19.N)
+        U = px.unwrap
+        for tag, p in (('initial_parameters', p_old), ('after_parameter_change', p_new)):
+            obj.p = p
+            g, H, _ = c19.oracle('cubic', x, p, a, B0, B2, c)
+            ex.goal('gradient_is_at_current_parameters[%s]' % tag, Eq(U(onp.asarray(obj.gradient(x), dtype=object)), U(g)))
+            ex.goal('hessian_vec_is_at_current_parameters[%s]' % tag, Eq(U(onp.asarray(obj.hessian_vec(x, v), dtype=object)), U(NP.dot(H, v))))
+    return fn
+
+
+@obligation(P, 'O5.objective_operators_follow_parameters', cap=300)
+def o5(h):
+    """value/gradient/Hessian-vector product of the REAL Objective are those of the parameters in objective.p, before and after
+    a parameter change (success flag and minimiser refer to the parameters the solve was asked for)"""
+    h.encoded('optimism.Objective:Objective.__init__ (jitted closures grad_x, hess_vec via their jaxprs)',
+              'optimism.Objective:Objective.gradient', 'optimism.Objective:Objective.hessian_vec')
+    h.bounds('n=2 unknowns; cubic energy family with all coefficients, states and both parameter sets symbolic (slots 0,1,2,4 change)')
+    h.assume_note('hybrid: the jitted closures of the real Objective are re-traced per call and interpreted on proxies (jit caching itself is not modelled)')
+    px.run_px(h, 'objective', make_objective_follows_p_harness(), cap=60)
